@@ -789,10 +789,14 @@ class BaseLoss(object):
 
         H = np.zeros((nP, nP))
 
+        # diff_loss is the derivative with respect to the weighted residual,
+        # the chain rule brings in the weight of each observation once more
+        weight = np.reshape(self._weight, (num_time - 1, -1))
+
         for i in range(num_time - 1):
             FF = ode_utils.vecToMatFF(solution_all[i,base_index_hess::], nS, nP)
             E = np.zeros(nS)
-            E[self._stateIndex] += diff_loss[i]
+            E[self._stateIndex] += diff_loss[i]*weight[i]
             H += scipy.sparse.kron(E, scipy.sparse.eye(nP)).dot(FF)
 
         # just the J^{\top}J part of the Hessian (which is guarantee to be PSD)
